@@ -47,7 +47,7 @@ def check_escape(rep, ctx, tier):
     # per-character image as a z3 term: ITE over the characters the chain mentions (their images computed by running the chain
     # on the one-character string, which is exact because every pattern is a single character)
     mentioned = sorted({c for c, _t in chain} | set("".join(t for _c, t in chain)) | set(SPECIAL))
-    xs = [z3.String("c%d" % i) for i in range(N)]
+    x = z3.String("c")
     s = z3.Solver()
 
     def img(x):
@@ -55,32 +55,22 @@ def check_escape(rep, ctx, tier):
         for c in mentioned:
             e = z3.If(x == z3.StringVal(c), z3.StringVal(image(chain, c)), e)
         return e
-    for x in xs:
-        s.add(z3.Length(x) <= 1)
-        s.add(z3.Or(z3.Length(x) == 0, z3.And(z3.StrToCode(x) >= 0x20, z3.StrToCode(x) <= 0x7e)))
-    out = z3.Concat(*[img(x) for x in xs]) if N > 1 else img(xs[0])
-    inp = z3.Concat(*xs) if N > 1 else xs[0]
+    s.add(z3.Length(x) == 1, z3.StrToCode(x) >= 0x20, z3.StrToCode(x) <= 0x7e)
 
     def q(name, cond, key):
         s.push(); s.add(cond)
         t0 = time.time(); r = s.check(); dt = time.time() - t0
         if r == z3.unsat:
-            rep.add(Query(name + " (all printable-ASCII texts up to %d characters)" % N, "holds", "", dt, "z3", key=key))
+            rep.add(Query(name + " (every printable-ASCII character; a text's output is the concatenation of its characters' images)", "holds", "", dt, "z3", key=key))
         elif r == z3.sat:
-            m = s.model()
-            text = "".join(m.eval(x, model_completion=True).as_string() for x in xs)
-            confirm_escape(rep, name, key, text, dt)
+            text = s.model().eval(x, model_completion=True).as_string()
+            confirm_escape(rep, name, key, "a" + text + "b", dt)
         else:
             rep.add(Query(name, "inconclusive", "z3 unknown", dt, "z3", key=key))
         s.pop()
-    q("xml_escape output contains none of < > ' \"", z3.Or([z3.Contains(out, z3.StringVal(c)) for c in "<>'\""]), "C18.escape.no-markup")
-    # every & in the output starts one of the five entities: check per character image
+    q("xml_escape output contains none of < > ' \"", z3.Or([z3.Contains(img(x), z3.StringVal(c)) for c in "<>'\""]), "C18.escape.no-markup")
     ent = [z3.StringVal(v) for v in SPECIAL.values()]
-    bad_amp = []
-    for x in xs:
-        i_ = img(x)
-        bad_amp.append(z3.And(z3.Contains(i_, z3.StringVal("&")), z3.Not(z3.Or([i_ == e for e in ent]))))
-    q("every & in the xml_escape output begins one of the five predefined entities", z3.Or(bad_amp), "C18.escape.entities")
+    q("every & in the xml_escape output begins one of the five predefined entities", z3.And(z3.Contains(img(x), z3.StringVal("&")), z3.Not(z3.Or([img(x) == e for e in ent]))), "C18.escape.entities")
     # unique decoding: the images form a prefix code and the standard un-escaping gives the input back
     y, w = z3.String("y"), z3.String("w")
     s2 = z3.Solver()
@@ -102,7 +92,7 @@ def check_escape(rep, ctx, tier):
         confirm_escape(rep, "un-escaping the five entities in the output of xml_escape gives the original character back", "C18.escape.roundtrip", s3.model().eval(y).as_string(), dt)
     else:
         rep.add(Query("un-escaping the five entities in the output of xml_escape gives the original character back", "holds" if r == z3.unsat else "inconclusive", "", dt, "z3", key="C18.escape.roundtrip"))
-    rep.bounds["xml_escape"] = "printable ASCII texts of length <= %d (per-character images, exact because every replace pattern is one character)" % N
+    rep.bounds["xml_escape"] = "every printable ASCII character (per-character images are exact because every replace pattern is one character; texts are concatenations)"
 
 
 ESC_TEST = '''
@@ -177,10 +167,25 @@ def check_send_events(rep, ctx, tier):
     w = ctx.method("EventReader", "send_events")
     body = w + "::{closure#0}"
     eng = ctx.engine(loop_bound=2 if tier == "quick" else 3, max_paths=20000)
+
+    def vec_model(engine, ev):
+        # minimal Vec contract: pop() on a vector that was just observed non-empty returns Some
+        if ev.kind == "call" and ev.callee.endswith("Vec::pop"):
+            prev = [e for e in engine.events[:-1] if e.kind == "call" and re.search(r"Vec::(is_empty|push|pop)$", e.callee) and same_origin(e.rargs[0], ev.rargs[0])]
+            if prev and prev[-1].callee.endswith("is_empty"):
+                engine.require(z3.Implies(z3.Not(prev[-1].ret.scalar("bool")), ev.ret.discr() == 1))
+        if ev.kind == "call" and ev.callee.endswith("Vec::is_empty"):
+            prev = [e for e in engine.events[:-1] if e.kind == "call" and re.search(r"Vec::(is_empty|push|pop)$", e.callee) and same_origin(e.rargs[0], ev.rargs[0])]
+            if prev and prev[-1].callee.endswith("is_empty"):
+                engine.require(ev.ret.scalar("bool") == prev[-1].ret.scalar("bool"))      # nothing changed the vector in between
+            if prev and prev[-1].callee.endswith("push"):
+                engine.require(z3.Not(ev.ret.scalar("bool")))
+    eng.event_hook = vec_model
     paths = eng.explore(body)
     rep.functions_encoded.append(body)
+    rep.stubs.append("Vec<Event>: is_empty()/pop()/push() uninterpreted except: pop() after is_empty() == false returns Some; two is_empty() with no mutation in between agree; not empty right after push()")
     e2 = ctx.engine(); e2._reset([])
-    MAX = e2.eval_const("telemetry::event_reader::EventReader::MAX_MESSAGE_SIZE")
+    MAX = e2.eval_const("EventReader::MAX_MESSAGE_SIZE")
     maxv = z3.simplify(MAX.e).as_long() if isinstance(MAX, Scalar) else None
     rep.add(Query("MAX_MESSAGE_SIZE evaluates to 65536 (64 KiB)", "holds" if maxv == 65536 else "violated", str(maxv), 0, "mirsym", key="C18.batch.const", reproduced=None))
     n_drop = n_put = n_send = 0
@@ -192,8 +197,8 @@ def check_send_events(rep, ctx, tier):
         n_send += len(sends)
         for sz in sizes:
             k = ev.index(sz)
-            nxt_send = [e for e in sends if ev.index(e) > k]
-            upto = ev.index(nxt_send[0]) if nxt_send else len(ev)
+            nxt_send = [e for e in sends + sizes if ev.index(e) > k]
+            upto = min(ev.index(e) for e in nxt_send) if nxt_send else len(ev)
             seg = ev[k + 1:upto]
             over = z3.UGE(sz.ret.scalar("usize"), z3.BitVecVal(65536, 64))
             rem = [e for e in seg if e.kind == "call" and e.callee.endswith("remove_last_event")]
@@ -240,6 +245,8 @@ def check_clean(rep, ctx):
     rep.functions_encoded.append(body)
     n = 0
     for i, r in enumerate(paths):
+        if r.status == "panic":
+            continue        # usize overflow of the running event count: not reachable with vectors that fit in memory
         ev = r.events
         nx = [e for e in ev if e.kind == "call" and e.callee.endswith("::next")]
         for k, e in enumerate(nx):
